@@ -155,8 +155,23 @@ def stamping(rep, tier, rng):
         for _ in range(nops):
             t = rand_dt(rng)
             sc.append("clock %d %d %d %d %d %d %d" % t)
-            k = rng.below(9)
-            if k == 0:
+            k = rng.below(12)
+            if k >= 9:
+                # several calls on ONE handle without flush / drop in between, the clock moving between them; the later write
+                # starts exactly on a cluster boundary (4096 is a multiple of every cluster size used here) or inside a cluster
+                first = rng.choice([4096, 4096, 8192, 100])
+                t2 = rand_dt(rng)
+                if k == 9:
+                    sc += ["seek 1 end 0", "seek 1 start 0", "write_all 1 %s" % hexs(b"p" * first)]; mo += ["write %d %d %d %d %d %d %d" % t]
+                elif k == 10:
+                    sc += ["set_created 1 %d %d %d %d %d %d %d" % t, "seek 1 start 0", "write_all 1 %s" % hexs(b"p" * first)]
+                    mo += ["setc %d %d %d %d %d %d %d" % t, "write %d %d %d %d %d %d %d" % t]
+                else:
+                    sc += ["seek 1 start 0", "write_all 1 %s" % hexs(b"p" * first), "seek 1 start 0", "read 1 %d" % first]
+                    mo += ["write %d %d %d %d %d %d %d" % t, "readmaybe %d %d %d %d" % (acc, t[0], t[1], t[2])]
+                sc += ["clock %d %d %d %d %d %d %d" % t2, "seek 1 start %d" % first, "write_all 1 %s" % hexs(b"q" * rng.range(1, 900))]
+                mo += ["write %d %d %d %d %d %d %d" % t2]
+            elif k == 0:
                 sc += ["write_all 1 %s" % hexs(b"x" * rng.range(1, 700))]; mo += ["write %d %d %d %d %d %d %d" % t]
             elif k == 1:
                 sc += ["seek 1 start 0", "read 1 %d" % rng.range(1, 600)]
